@@ -330,6 +330,50 @@ def work_cli(chunk, st):
                 st.violation('cli:%s:text-verdict-differs' % family, {'policy': pol, 'peer': peer, 'result': pt.result, 'fields': pt.error_fields, 'model': sorted(want)})
 
 
+SEQ_PEERS = {
+    'ok': dict(key=['ssh-ed25519'], kex=['curve25519-sha256'], ciphers=['aes256-ctr'], macs=['hmac-sha2-256']),
+    'extra-cipher': dict(key=['ssh-ed25519'], kex=['curve25519-sha256'], ciphers=['aes256-ctr', 'aes128-cbc'], macs=['hmac-sha2-256']),
+    'other-mac': dict(key=['ssh-ed25519'], kex=['curve25519-sha256'], ciphers=['aes256-ctr'], macs=['hmac-sha1']),
+    'other-kex-key': dict(key=['rsa-sha2-512'], kex=['diffie-hellman-group16-sha512'], ciphers=['aes256-ctr'], macs=['hmac-sha2-256']),
+}
+SEQ_POLICY = {'host_keys': ['ssh-ed25519'], 'kex': ['curve25519-sha256'], 'ciphers': ['aes256-ctr'], 'macs': ['hmac-sha2-256']}
+
+
+def work_sequences(chunk, st):
+    for kinds, subset, fmt in chunk:
+        pol = dict(SEQ_POLICY, subset=subset)
+        path = H.tmp_path('c06-seq-policy.txt')
+        with open(path, 'w') as f:
+            f.write(R.policy_text(pol))
+        servers = []
+        for k in kinds:
+            sp = SEQ_PEERS[k]
+            servers.append(P.Server(kex=sp['kex'], key=sp['key'], enc=sp['ciphers'], mac=sp['macs'], host_keys=P.standard_host_keys(sp['key'])))
+        res, outs = H.audit_sequence(servers, opts=['-n', '--skip-rate-test', '-P', path] + (['-j'] if fmt == 'json' else []))
+        st.execution(res.world, outcome=('sequence', fmt, res.status), root=('sequence', kinds, subset, fmt), nontrivial=('sequence', kinds, subset, fmt))
+        if outs is None or len(outs) != len(kinds):
+            st.violation('sequence:output-shape', {'kinds': kinds, 'stdout': res.stdout[-300:]})
+            continue
+        worst = 0
+        for k, o in zip(kinds, outs):
+            sp = SEQ_PEERS[k]
+            peer = dict(BASE_PEER, key=sp['key'], kex=sp['kex'], ciphers=sp['ciphers'], macs=sp['macs'])
+            want = R.canon(R.evaluate(pol, ref_peer(peer)))
+            worst = max(worst, 3 if want else 0)
+            if fmt == 'json':
+                got = set((e['mismatched_field'], tuple(e['expected_required']), tuple(e['expected_optional']), tuple(e['actual'])) for e in o.get('errors', []))
+                if o.get('passed') != (not want) or got != want or (o.get('passed') is True) != (len(o.get('errors', [])) == 0):
+                    st.violation('sequence:verdict-depends-on-earlier-targets:json', {'targets_in_run': kinds, 'target': k, 'subset': subset, 'passed': o.get('passed'),
+                                                                                        'tool_errors': sorted(got), 'model_errors': sorted(want)})
+            else:
+                pt = report.PolicyText(o)
+                if (pt.result == 'passed') != (not want) or sorted(set(pt.error_fields)) != sorted(set(f for f, _a, _b, _c in want)):
+                    st.violation('sequence:verdict-depends-on-earlier-targets:text', {'targets_in_run': kinds, 'target': k, 'result': pt.result, 'fields': pt.error_fields, 'model': sorted(want)})
+        if res.status != worst:
+            st.violation('sequence:exit-status', {'kinds': kinds, 'status': res.status, 'expected': worst})
+    st.sample({'policy_sequence': list(chunk[0][0]), 'subset_mode': chunk[0][1], 'fmt': chunk[0][2]}, cap=14)
+
+
 def run(tier, seed):
     t0 = time.time()
     nsh = 16
@@ -337,6 +381,9 @@ def run(tier, seed):
     st = par.pmap(work, tasks, extra=(tier,), chunk=1)
     cc = cli_cases(tier)
     par.pmap(work_cli, cc, stats=st)
+    seqs = [(k, sub, f) for n in (2, 3) for k in itertools.product(list(SEQ_PEERS), repeat=n) for sub in (False, True) for f in ('json', 'text')
+            if n == 2 or tier != 'quick' or k[0] == 'ok']
+    par.pmap(work_sequences, seqs, stats=st, chunk=4)
     vcases = []
     for family, pol, peer, fmt in H.pick(cc, seed, 16 if tier == 'quick' else 80):
         path = H.tmp_path('c06-val-%d.txt' % len(vcases))
@@ -357,7 +404,8 @@ def run(tier, seed):
              'KEXINIT parser: per list field all policy values {absent, sequences of length 1..%d} x all peer sequences of length 0..%d over a '
              '3-name universe (kex: +2 strict markers) x subset flag (host keys x optional-host-key subsets); fields crossed pairwise at length <=2%s; '
              'size maps over %s x larger-keys flag x present/absent; CA type x size; banner/compression; metamorphic shrink/grow on every passing '
-             'pair; plus %d (policy, peer) pairs through the CLI (-P, text and JSON)' % (
+             'pair; plus %d (policy, peer) pairs through the CLI (-P, text and JSON); plus sequences of 2-3 peers evaluated against one policy in ONE '
+             '-T invocation (every target judged by the model on its own)' % (
                  2 if tier == 'quick' else 3, 2 if tier == 'quick' else 3, ' (every 4th)' if tier == 'quick' else '', SIZES, len(cc)),
         assumptions=['reference model: refmodels/policy.py', 'error lists compared as sets of (field, expected, optional, actual)'],
         exhaustive=(tier != 'quick'), traces_validated=validated, extra={'cli_pairs': len(cc)})
